@@ -66,8 +66,11 @@ Lemma all_labs_complete l : In l all_labs.
 Proof. destruct l as [h| |u| | | | |g|g| | | |u| |b| |]; try destruct h; try destruct u; try destruct g; try destruct b; simpl; tauto. Qed.
 
 
+(* the notifications of the last step are forgotten by the next one (step_ret_m starts by clearing them), so V
+   holds states with none *)
+Definition nz (s : state) : state := set_evs [] s.
 Definition succs (s : state) : list state :=
-  flat_map (fun lb => flat_map (fun ord => [fst (step_ret_m cfg_now true s (lb, ord)); fst (step_ret_m cfg_now false s (lb, ord))]) (orders s)) all_labs.
+  flat_map (fun lb => flat_map (fun ord => [nz (fst (step_ret_m cfg_now true s (lb, ord))); nz (fst (step_ret_m cfg_now false s (lb, ord)))]) (orders s)) all_labs.
 
 (* hashed set of states *)
 Definition bit (b : bool) : N := if b then 1 else 0.
@@ -96,7 +99,7 @@ Fixpoint explore (fuel : nat) (front : list state) (v : sset) : sset * list stat
     match front with
     | [] => (v, [])
     | s :: rest =>
-      let '(v', new) := fold_left (fun acc x => let '(va, na) := acc in if memb x va then acc else (addb x va, x :: na))
+      let '(v', new) := fold_left (fun acc x => let '(va, na) := acc in if state_eqb x s || memb x va then acc else (addb x va, x :: na))
                                   (succs s) (v, []) in
       explore f (new ++ rest) v'
     end
